@@ -52,6 +52,7 @@ var c02Catalogue = []string{
 	"late-honest",            // control: certificates in date from mid-2029 - valid at the configured time only
 	"resume-twice-zero-master", // honest full handshake, honest resumption, then a peer without any key resumes the session with an all-zero master secret
 	"honest-short-rand",      // control: the client's Config.Rand hands out 3 bytes per call; must complete, and the hello's random must be filled
+	"resume-other-name",      // a session made by a configuration for server.test is offered, through the shared cache, by one whose ServerName is other.test
 	"skx-signed-by-enc-key",  // genuine certificate pair, but the peer holds only the encryption key and signs ServerKeyExchange with it
 	"valid-then-expired",     // an honest connection succeeds; later the same configuration (same root pool object) reports a time after the certificates' end
 	"valid-then-expired-resume", // same with a session cache: the server tries to resume the session made while the certificates were valid
@@ -60,7 +61,7 @@ var c02Catalogue = []string{
 func (c02) ID() string    { return "C02" }
 func (c02) Level() string { return "fault_enumeration" }
 func (c02) Rule() string {
-	return "enumerates the impostor catalogue (untrusted CA, expired, not yet valid, wrong name, single certificate, swapped, mixed CAs; ServerKeyExchange signed by another key / over other randoms / over another certificate or other ECDH parameters / corrupted / empty / omitted; no encryption key; ServerKeyExchange signed with the encryption key; no keys at all; unverified session resumed under a verifying configuration; a key-less peer resuming with an all-zero master secret after an honest resumption; a control whose Config.Rand hands out 3 bytes per call (the hello's random must be filled); certificates that were in date at an earlier successful connection and are expired at the time now configured, with and without a cached session) x 4 suites x InsecureSkipVerify on/off x both stacks, plus honest controls; thorough repeats it under many seeds (segmentation, schedules, fresh randoms). A scripted server built on the independent reference implementation plays the impostor against a real client and keeps its transcript and keys consistent. distinct = distinct (stack, suite, verify flag, impostor, outcome); non-trivial = the scripted flow reached the deviating step"
+	return "enumerates the impostor catalogue (untrusted CA, expired, not yet valid, wrong name, single certificate, swapped, mixed CAs; ServerKeyExchange signed by another key / over other randoms / over another certificate or other ECDH parameters / corrupted / empty / omitted; no encryption key; ServerKeyExchange signed with the encryption key; no keys at all; unverified session resumed under a verifying configuration; a session resumed by a configuration with another ServerName; a key-less peer resuming with an all-zero master secret after an honest resumption; a control whose Config.Rand hands out 3 bytes per call (the hello's random must be filled); certificates that were in date at an earlier successful connection and are expired at the time now configured, with and without a cached session) x 4 suites x InsecureSkipVerify on/off x both stacks, plus honest controls; thorough repeats it under many seeds (segmentation, schedules, fresh randoms). A scripted server built on the independent reference implementation plays the impostor against a real client and keeps its transcript and keys consistent. distinct = distinct (stack, suite, verify flag, impostor, outcome); non-trivial = the scripted flow reached the deviating step"
 }
 func (c02) Components() (real, stub []string) {
 	return []string{"tlcp/dtlcp client (instrumented): certificate verification, key agreement checks, Finished check, session cache"},
@@ -109,7 +110,7 @@ func c02MustFail(imp string, skip bool) bool {
 	switch imp {
 	case "honest", "late-honest", "honest-short-rand":
 		return false
-	case "untrusted-ca", "expired", "not-yet-valid", "wrong-name", "mixed-ca", "wrong-name-ip", "resume-unverified-mixed", "valid-then-expired", "valid-then-expired-resume", "recent-expired":
+	case "untrusted-ca", "expired", "not-yet-valid", "wrong-name", "mixed-ca", "wrong-name-ip", "resume-unverified-mixed", "valid-then-expired", "valid-then-expired-resume", "recent-expired", "resume-other-name":
 		return !skip // certificate checks only: acceptable once verification is disabled (keys are held)
 	case "resume-unverified":
 		return !skip
@@ -294,6 +295,19 @@ func (c02) Run(c *Case, src *vs.Src) *Result {
 		// connection 2: same cache, verification as per case; the impostor resumes
 		c2 := *cc
 		c2.Cache = "shared"
+		o2 := *o
+		o2.Resume, o2.Master = true, h1.Peer.Master
+		co, _, _ = runConn(1, &c2, &o2, []string{"rCH", "SH", "CCS", "FIN", "rFLIGHT", "APP", "rAPP"})
+	} else if p.Impostor == "resume-other-name" {
+		c1 := *cc
+		c1.Cache = "shared"
+		first, _, h1 := runConn(0, &c1, o, ops)
+		if first.hsErr != nil || first.reason != vs.Done {
+			r.Violate("setup", sigp+" setup-failed", "the first connection (name server.test) failed: %v (%s)", first.hsErr, first.reason)
+			return r
+		}
+		c2 := c1
+		c2.ServerName = "other.test"
 		o2 := *o
 		o2.Resume, o2.Master = true, h1.Peer.Master
 		co, _, _ = runConn(1, &c2, &o2, []string{"rCH", "SH", "CCS", "FIN", "rFLIGHT", "APP", "rAPP"})
